@@ -53,6 +53,8 @@ FILTER_KEYS = ["STATUS", "RISKS", "DECISIONS", "TESTS", "CI", "DEPS"]
 KEY = st.one_of(
     ident(7), ident(7), ident(5),
     st.sampled_from(FILTER_KEYS + ["A.b", "x-y", "K9", "a.b-c", "PATTERN", "REGEX", "TYPE", "NAME", "ID"]),
+    # words the format itself uses (sentinel, envelope, section and block names) as ordinary keys
+    st.sampled_from(["OCTAVE", "END", "SEAL", "FIELDS", "POLICY", "CONTRACT", "VERSION", "GRAMMAR"]),
 )
 SECTION_ID = st.sampled_from(["1", "2", "2b", "12", "0", "CONTEXT", "DEFS", "3c"])
 
